@@ -91,6 +91,8 @@ type Agg struct {
 	Samples     []json.RawMessage
 	Violations  []Violation
 	HarnessErrs []string
+	// Fingerprints: every violation fingerprint seen (known findings included) -> number of cases showing it
+	Fingerprints map[string]int
 }
 
 var registry = map[string]func() Check{}
@@ -352,6 +354,7 @@ func CheckMain(id, tier string) int {
 	ran := make([]bool, n)
 	violIdx := map[string]int{} // fingerprint -> first case index
 	violOf := map[string]Violation{}
+	fpCount := map[string]int{}
 	var died []int
 	handle := func(r Result) {
 		mu.Lock()
@@ -387,6 +390,7 @@ func CheckMain(id, tier string) int {
 		}
 		for _, v := range r.Violations {
 			fp := v.Fingerprint()
+			fpCount[fp]++
 			if old, ok := violIdx[fp]; !ok || r.Index < old {
 				violIdx[fp] = r.Index
 				violOf[fp] = v
@@ -540,6 +544,7 @@ func CheckMain(id, tier string) int {
 		exit = 1
 	}
 
+	agg.Fingerprints = fpCount
 	guards := c.Guards(agg, complete)
 	writeEvidence(c, meta, tier, seed, agg, complete, newViol, time.Since(t0), guards)
 
@@ -638,6 +643,9 @@ func writeEvidence(c Check, meta Meta, tier string, seed int64, a *Agg, complete
 		"outcomes":                      a.Outcomes,
 		"counters":                      a.Counters,
 		"known_finding_hits":            a.Counters["known_finding_hits"],
+	}
+	if len(a.Fingerprints) > 0 {
+		cov["violation_fingerprints_seen(known findings included)"] = a.Fingerprints
 	}
 	if len(guards) > 0 {
 		cov["vacuity_guards_failed"] = guards
